@@ -2775,7 +2775,7 @@ void mmd_engine_update_metavalue_for_key(mmd_engine * e, const char * key, const
 
 	meta * m;
 
-	for (int i = 0; i < e->metadata_stack->size; ++i) {
+	for (int i = 0; has_meta && i < e->metadata_stack->size; ++i) {
 		m = stack_peek_index(e->metadata_stack, i);
 
 		if (strcmp(clean, m->key) == 0) {
